@@ -128,6 +128,9 @@ type puppetConn struct {
 	probeOK int
 	probeBad []string
 	closedByPeer bool
+	hbSeqs   []uint64 // fresh sequence numbers used by heartbeat frames with odd flags
+	sopens   int      // well-formed stream opens sent
+	smsgs    int      // well-formed stream messages sent
 }
 
 // corpusFrame builds the well-formed request of the given kind.
@@ -207,12 +210,40 @@ func (w *World) runPuppetClient(ci int, ops []PuppetOp) {
 			w.Net.fault("raw-frame")
 		case "probe":
 			w.puppetProbe(pc, id)
+		case "hb":
+			// a frame with the heartbeat bit set next to arbitrary other upgrade bits, a method
+			// name and possibly a body: it is a ping and must be answered once without any handler
+			pc.seq++
+			seq := pc.seq + 5000
+			if op.Pos == 1 {
+				seq = 1 // the sequence number of the stream this puppet opened first
+			} else {
+				pc.hbSeqs = append(pc.hbSeqs, seq)
+			}
+			method := ""
+			switch op.N {
+			case 1:
+				method = w.methodName(0)
+			case 2:
+				method = w.streamMethod(0)
+			}
+			var body []byte
+			if op.Size > 0 {
+				body = w.bodyOf(&Msg{ID: id, N: 4, Pad: MakePad(ReqKey(id), op.Size)})
+			}
+			pc.end.Write(wireFrame(encodeRequest(w.P.Header, seq, []byte{byte(op.Val) | 0x20}, method, body)))
+			w.Net.fault("odd-upgrade")
 		default:
 			payload, seq := w.corpusFrame(pc, op, id)
 			switch op.Mut {
 			case "":
-				if op.Kind == "valid" {
+				switch op.Kind {
+				case "valid":
 					pc.sent[seq] = id
+				case "sopen":
+					pc.sopens++
+				case "smsg":
+					pc.smsgs++
 				}
 			case "upgrade":
 				w.Points = append(w.Points, fmt.Sprintf("%s/upgrade/%d/sz%d", w.P.Header, op.Val, op.Size))
@@ -248,6 +279,7 @@ func (w *World) puppetProbe(pc *puppetConn, id uint64) {
 	pc.seq++
 	seq := pc.seq + 1000
 	m := &Msg{ID: id, N: 5, Pad: MakePad(ReqKey(id), 9)}
+	pc.sent[seq] = id
 	pc.end.Write(wireFrame(encodeRequest(w.P.Header, seq, nil, w.methodName(0), w.bodyOf(m))))
 	simrt.Sleep(2*w.P.Net.MaxLatency + 20*time.Millisecond)
 	if pc.closedByPeer || pc.end.pipe.Ends[1].closed {
